@@ -880,6 +880,10 @@ def run(ctx):
     # string blobs (module/thread/handle/link-map names, OS version): the length header is the byte length of the body that follows it
     from rules import c16
     c16.rule_string(ctx, R="C01/string-length")
+    # debug-id records: the location stored in a module record is the location of the bytes that were written for it, with their length
+    # (same rule instance as C08/module-fields) — a record longer than what was written runs into the module's name
+    from rules import c08
+    c08.rule_module_fields(ctx, R="C01/module-record-objects")
     try:
         from rules import c19
         c19.rule_stale_field(ctx, rule="C01/one-flush-owner", only=("memory_blocks",))
